@@ -11,7 +11,8 @@ ASSUMPTIONS = ["sources sorted ascending by (inline, crossline) (the route store
 RULE = ("random proper subsets of n_il x n_xl grids (every line keeps >=1 trace; 1-40% holes incl. adjacent pairs, corners, "
         "first/last trace) with independent starts and unequal increments x detection modes heuristic/thorough/exhaustive x "
         "layouts: inferred axes, tracecount, structured=False, trace i/header i == i-th source trace/header, tracefield grids "
-        "with zeros at holes, volume reads == zfpy image of the zero-filled grid bit for bit")
+        "with zeros at holes, volume reads == zfpy image of the zero-filled grid bit for bit"
+        "; K: Model/Irregular inferRange vs the header grid and populated (ordinal -> grid slot) vs the reader's mask, on executions of the irregular route")
 
 
 def one(ctx, rng, k):
